@@ -502,7 +502,14 @@ impl std::io::Write for FileSpillWriter {
             )));
         }
 
-        self.file.write_all(buf).map_err(DataFusionError::IoError)?;
+        if let Err(e) = self.file.write_all(buf) {
+            // Nothing is recorded in `current_file_disk_usage` for a failed write, so
+            // dropping the file would never release this charge: roll it back here.
+            self.disk_manager
+                .used_disk_space
+                .fetch_sub(len, Ordering::Relaxed);
+            return Err(DataFusionError::IoError(e).into());
+        }
 
         self.current_file_disk_usage
             .fetch_add(len, Ordering::Relaxed);
